@@ -15,7 +15,8 @@ import shutil
 import subprocess
 import sys
 
-SEEDED = "/verif/seeded"
+VERIF = os.path.dirname(os.path.dirname(os.path.abspath(__file__)))
+SEEDED = os.path.join(VERIF, "seeded")
 PY = "/venv/bin/python"
 
 
@@ -35,7 +36,7 @@ def main(ids):
         if not os.path.isdir(d) or (ids and sid not in ids):
             continue
         meta = json.load(open(os.path.join(d, "meta.json")))
-        wt = "/tmp/seedwt_" + sid
+        wt = "/tmp/seedwt_%s_%d" % (sid, os.getpid())
         sh("git -C /repo worktree remove --force %s" % wt)
         rc, out = sh("git -C /repo worktree add -q --detach %s HEAD" % wt)
         res = {"property": meta["property"], "what": meta.get("what"), "needs": meta.get("needs")}
@@ -54,12 +55,12 @@ def main(ids):
             checks = [meta["property"]] + meta.get("also", [])
             res["checks"] = {}
             for c in checks:
-                rcc, oc = sh("%s -m harness.check %s quick" % (PY, c), cwd="/verif", env=dict(os.environ, VERIF_REPO_SRC=wt + "/src"))
+                rcc, oc = sh("%s -m harness.check %s quick" % (PY, c), cwd=VERIF, env=dict(os.environ, VERIF_REPO_SRC=wt + "/src"))
                 lines = [l for l in oc.splitlines() if l.startswith("VIOLATION")]
                 first = [l for l in oc.splitlines() if l and not l.startswith(("VIOLATION", "KNOWN", " "))][:1]
                 res["checks"][c] = {"rc": rcc, "violations": len(lines), "detected": rcc == 1 and bool(lines), "first": (first[0][:300] if first else "")}
             # restore evidence written by these runs (they describe a patched tree)
-            sh("git -C /verif checkout -- evidence")
+            sh("git -C %s checkout -- evidence" % VERIF)
         finally:
             sh("git -C /repo worktree remove --force %s" % wt)
             shutil.rmtree(wt, ignore_errors=True)
